@@ -121,10 +121,17 @@ def erased_position(ast, ident):
                     if occurs(a):
                         unused = i < len(params) and not (pat_names(params[i]) & names_in(h[3]))
                         ok = ok and (unused or covered(a))
+                if e[3][0] != "none" and occurs(e[3]):
+                    # the &rest argument binds whatever part of the parameter pattern the positional arguments leave over
+                    rest_pat = h[2]
+                    for _ in e[2]:
+                        rest_pat = rest_pat[2] if rest_pat[0] == "pc" else ["pn"]
+                    unused = not (pat_names(rest_pat) & names_in(h[3]))
+                    ok = ok and (unused or covered(e[3]))
             else:
                 ok = all(covered(a) for a in e[2])
-            if e[3][0] != "none":
-                ok = ok and covered(e[3])
+                if e[3][0] != "none":
+                    ok = ok and covered(e[3])
             return ok
         kids = {"prim": lambda: e[2], "list": lambda: e[1], "if": lambda: e[1:4], "lambda": lambda: [e[3]], "apply": lambda: e[1:3]}.get(t, lambda: [])()
         return all(covered(k) for k in kids)
